@@ -150,16 +150,16 @@ func (t *treeGen) pluginTree(healthy bool, withBinaries bool) ([]plEntry, []plIn
 func genC28(g *Gen, tier string, w *bufio.Writer) {
 	scale := 1
 	if tier == "thorough" {
-		scale = 12
+		scale = 6
 	}
 	// ---- list
-	for i := 0; i < 220*scale; i++ {
+	for i := 0; i < 160*scale; i++ {
 		t := newTreeGen(g)
 		fs, _ := t.pluginTree(g.Chance(3, 4), false)
 		fmt.Fprintf(w, "list %s %s\n", encVT(buildVT(t.origs)), encFS("FS", fs))
 	}
 	// ---- resolve
-	for i := 0; i < 160*scale; i++ {
+	for i := 0; i < 120*scale; i++ {
 		t := newTreeGen(g)
 		fs, inst := t.pluginTree(g.Chance(9, 10), false)
 		ncfg := g.Intn(3) + 1
@@ -206,7 +206,7 @@ func genC28(g *Gen, tier string, w *bufio.Writer) {
 		fmt.Fprintf(w, "resolve %s %s %s %s\n", encVT(vt), encCT(buildCT(cons, vt)), encFS("FS", fs), encCFG(cfg))
 	}
 	// ---- pick
-	for i := 0; i < 120*scale; i++ {
+	for i := 0; i < 80*scale; i++ {
 		t := newTreeGen(g)
 		n := g.Intn(7)
 		if g.Chance(1, 3) {
@@ -238,7 +238,7 @@ func genC28(g *Gen, tier string, w *bufio.Writer) {
 		fmt.Fprintf(w, "pick %s %s %s\n", encVT(vt), encCT(buildCT(cons, vt)), encJob(j))
 	}
 	// ---- semver: the order laws the theorems assume, on the real library
-	for i := 0; i < 60*scale; i++ {
+	for i := 0; i < 40*scale; i++ {
 		var origs []string
 		used := map[string]bool{}
 		for k := 0; k < 7; k++ {
